@@ -79,6 +79,11 @@ CHECKS = {
          "Programs of C01's space are built with random pre-tags (arrays, axes, reductions, implementation strategies), in three shapes (hash-consed, natural with duplicates, one injected twin) plus aliasing wrappers over one buffer; each of CopyMapper, map_and_copy(id), deduplicate, deduplicate_data_wrappers, eliminate_dead_code, materialize_with_mpms, unify_axes_tags and code-generation preprocessing/lowering, and two random pipelines of length 2-4, is applied. Output names, declared shape/dtype, value under the reference evaluator (bitwise for copy-like transformations, Monte-Carlo-arithmetic tolerance after lowering), fingerprint of the input before/after, bytes of wrapped data, T(T g) == T g and tag-stripped equality are checked on every application; one in 6-16 cases is also compiled and executed.",
          "vf.oracle.refeval is the meaning of a graph; cases where it disagrees with the NumPy shadow on the untransformed graph are skipped (C01/C02's business). Collision/duplicate errors on inputs that contain duplicates are the documented refusal.",
          "DESIGN.md §3 C05"),
+ "C06": ("exploration",
+         "metamorphic runtime oracle with exhaustive policy enumeration: reference evaluation of the rewritten graph vs the original for EVERY distribution policy (per einsum: none or operand i) and for the no-broadcast rewrite; sampled compiled execution",
+         "Expressions with 1..5 einsums/matmuls/dots over trees of + - * / (arrays and Python/NumPy scalars in either position), powers, math functions, indexing, reshapes, transposes and unit-axis broadcasts; the complete policy product (<= 125 quick / 400 thorough, otherwise all single-einsum policies plus random mixtures) is applied through the real callback interface, each result evaluated and compared (exact for integers, Monte-Carlo-arithmetic + scale-aware re-association tolerance otherwise); rewrite_einsums_with_no_broadcasts is compared the same way and its result must not broadcast any unit axis. Violations are keyed by the operation on top of the distributed operand.",
+         "RuntimeError('Cannot distribute composed einsums') is the documented refusal. pad/astype/roll lambdas (outside the quantifier; the raiser answers 'unknown' and the mapper does not catch it) are not generated -- noted in DESIGN.md §8.",
+         "DESIGN.md §3 C06"),
 }
 
 NOT_YET = {
